@@ -275,7 +275,17 @@ func (d *DNSFilter) handleFilteringSetRules(w http.ResponseWriter, r *http.Reque
 		return
 	}
 
-	d.conf.UserRules = req.Rules
+	// The custom rules are read under filtersMu by the status handler, the
+	// configuration writer and the filter-enabling code, so set them under the
+	// same lock.  Release it before going on, since both the configuration
+	// writer and EnableFilters take it themselves.
+	func() {
+		d.conf.filtersMu.Lock()
+		defer d.conf.filtersMu.Unlock()
+
+		d.conf.UserRules = req.Rules
+	}()
+
 	d.conf.ConfigModified()
 	d.EnableFilters(true)
 }
